@@ -142,60 +142,125 @@ func pxStacks(tier string) [][]Spec {
 
 // pxPrograms enumerates the program space: stacks x scripts x histories x sync/async.
 func pxPrograms(tier, checks string) []*Program {
-	scriptLen := 2
-	if tier == "thorough" {
-		scriptLen = 3
-	}
-	scripts := pxScripts(scriptLen)
 	var progs []*Program
 	for si, stack := range pxStacks(tier) {
-		deep := len(stack) >= 3
-		nHedge := 0
-		for _, sp := range stack {
-			if sp.Kind == KHedge {
-				nHedge++
+		progs = append(progs, pxStackPrograms(tier, checks, si, stack)...)
+	}
+	return progs
+}
+
+var pxScriptCache = map[int][][]Out{}
+
+// pxStackPrograms: the programs of one stack (si is its index in pxStacks(tier), used to spread the
+// quick tier's sampling).
+func pxStackPrograms(tier, checks string, si int, stack []Spec) []*Program {
+	scriptLen := 2
+	if tier == "thorough" && len(stack) <= 2 {
+		scriptLen = 3 // deeper stacks keep scripts of up to two outcomes in both tiers: the product with 17 576 + 6 561 stacks is what a run can finish
+	}
+	scripts := pxScriptCache[scriptLen]
+	if scripts == nil {
+		scripts = pxScripts(scriptLen)
+		pxScriptCache[scriptLen] = scripts
+	}
+	var progs []*Program
+	deep := len(stack) >= 3
+	nHedge := 0
+	for _, sp := range stack {
+		if sp.Kind == KHedge {
+			nHedge++
+		}
+	}
+	if nHedge >= 2 && tier != "thorough" {
+		return nil // hedges nested in hedges under a third policy: thousands of schedules each, thorough tier only
+	}
+	for ci, sc := range scripts {
+		if deep && tier != "thorough" && len(sc) > 1 && (ci+si)%3 != 0 {
+			continue // quick: deeper stacks see every single-outcome script and a third of the longer ones
+		}
+		variants := [][]Out{sc}
+		if hasTimed(stack) {
+			variants = withDurations(sc)
+			if tier != "thorough" {
+				variants = variants[:2]
 			}
 		}
-		if nHedge >= 2 && tier != "thorough" {
-			continue // hedges nested in hedges under a third policy: thousands of schedules each, thorough tier only
-		}
-		for ci, sc := range scripts {
-			if deep && tier != "thorough" && len(sc) > 1 && (ci+si)%3 != 0 {
-				continue // quick: deeper stacks see every single-outcome script and a third of the longer ones
+		for vi, v := range variants {
+			// history: the same script twice (stateful policies see their own effects), then a plain success
+			hist := [][]Out{v, v}
+			if tier == "thorough" || (si+ci+vi)%2 == 0 {
+				hist = append(hist, []Out{{V: 1}})
 			}
-			variants := [][]Out{sc}
-			if hasTimed(stack) {
-				variants = withDurations(sc)
-				if tier != "thorough" {
-					variants = variants[:2]
-				}
+			async := []bool{false, (si+ci)%4 == 1, false}
+			mbd := 2
+			if tier == "thorough" {
+				mbd = 3
 			}
-			for vi, v := range variants {
-				// history: the same script twice (stateful policies see their own effects), then a plain success
-				hist := [][]Out{v, v}
-				if tier == "thorough" || (si+ci+vi)%2 == 0 {
-					hist = append(hist, []Out{{V: 1}})
-				}
-				async := []bool{false, (si+ci)%4 == 1, false}
-				mbd := 2
-				if tier == "thorough" {
-					mbd = 3
-				}
-				if hasTimed(stack) && tier != "thorough" {
-					hist = hist[:2]
-				}
-				if nHedge >= 1 && tier != "thorough" {
-					for _, sp := range stack {
-						if sp.Kind == KRetry && sp.MaxRetries >= 2 {
-							hist = hist[:1] // three rounds of overlapping attempts: one execution is tens of thousands of schedules
-						}
+			if hasTimed(stack) && tier != "thorough" {
+				hist = hist[:2]
+			}
+			if nHedge >= 1 && tier != "thorough" {
+				for _, sp := range stack {
+					if sp.Kind == KRetry && sp.MaxRetries >= 2 {
+						hist = hist[:1] // three rounds of overlapping attempts: one execution is tens of thousands of schedules
 					}
 				}
-				progs = append(progs, &Program{Stack: stack, Scripts: hist, Async: async[:len(hist)], Checks: checks, MaxBoundedDepth: mbd})
 			}
+			progs = append(progs, &Program{Stack: stack, Scripts: hist, Async: async[:len(hist)], Checks: checks, MaxBoundedDepth: mbd})
 		}
 	}
 	return progs
+}
+
+// pxUnits hands out the program space stack by stack: a unit is a run of consecutive stacks whose
+// programs are only built inside the worker that runs it (the thorough space does not fit in memory
+// seventeen times over). Stacks with a timeout or hedge (many schedules per program) come first and in
+// smaller units, so that the workers finish together.
+func pxUnits(prefix, tier, checks string, bound int) []Unit {
+	stacks := pxStacks(tier)
+	type ist struct {
+		si    int
+		stack []Spec
+	}
+	var timed, plain []ist
+	for si, st := range stacks {
+		if hasTimed(st) {
+			timed = append(timed, ist{si, st})
+		} else {
+			plain = append(plain, ist{si, st})
+		}
+	}
+	var us []Unit
+	chunk := func(kind string, list []ist, n int) {
+		for i := 0; i < len(list); i += n {
+			part := list[i:min(i+n, len(list))]
+			us = append(us, Unit{Name: fmt.Sprintf("%s/%s stacks[%d..%d] e.g. [%s]", prefix, kind, i, i+len(part)-1, stackStr(part[0].stack)), Run: func(dl time.Time) *Stats {
+				tot := &Stats{BoundCompleted: 1 << 30, outcomes: map[string]int{}}
+				for _, x := range part {
+					scs := programScenarios(prefix, pxStackPrograms(tier, checks, x.si, x.stack), bound)
+					st := chunkUnits(prefix, scs, len(scs)+1)
+					if len(st) == 0 {
+						continue
+					}
+					mergeStats(tot, st[0].Run(dl))
+					if len(tot.Violations) > 3 {
+						break
+					}
+				}
+				if tot.BoundCompleted == 1<<30 {
+					tot.BoundCompleted = 0
+				}
+				return tot
+			}})
+		}
+	}
+	nt, np := 3, 12
+	if tier == "thorough" {
+		nt, np = 2, 10
+	}
+	chunk("timed", timed, nt)
+	chunk("plain", plain, np)
+	return us
 }
 
 func init() {
@@ -206,12 +271,12 @@ func init() {
 	register(&CheckDef{
 		Property:  "C01",
 		Technique: "exhaustive enumeration of programs (policy stack x configuration x outcome script x history), each executed on the real code under the virtual runtime with a transparent probe between every two layers, and checked layer by layer against the documented behaviour of each policy",
-		Rule: "a program = a stack of 1-3 (thorough 4) policy configurations from a 26-element alphabet covering all eight policies (with repetition) x an outcome script over {ok(1), ok(0), err(E1), err(E2)} (with slow first invocations when a timeout or hedge is present) " +
+		Rule: "a program = a stack of 1-3 (thorough 4) policy configurations from a 26-element alphabet covering all eight policies (with repetition) x an outcome script over {ok(1), ok(0), err(E1), err(E2)} of up to 2 outcomes (thorough: 3 for stacks of one or two policies), with slow first invocations when a timeout or hedge is present, " +
 			"x a history of 2-3 executions on the same instances, sync and async; stacks with timeout/hedge/async are explored over all schedules within deviation bound 1; distinct = distinct observation logs",
 		Assume: []string{"probes are transparent user-defined policies (the library's own extension interface)", "concurrent applications of one retry layer under a hedge are outside the retry contract (C14)",
 			"breakers in the alphabet are count based (time-windowed ones are covered by C03)"},
 		Budget: map[string]time.Duration{"quick": 150 * time.Second, "thorough": 25 * time.Minute},
-		Units:  func(tier string) []Unit { return programUnits("C01", pxPrograms(tier, "layers"), 400, 1) },
+		Units:  func(tier string) []Unit { return pxUnits("C01", tier, "layers", 1) },
 	})
 	register(&CheckDef{
 		Property:  "C16",
@@ -221,7 +286,7 @@ func init() {
 		Assume: []string{"an abort-matching failure on the exhausting attempt may be reported as either story (one event)", "an execution without any cache key may or may not report a miss"},
 		Budget: map[string]time.Duration{"quick": 150 * time.Second, "thorough": 25 * time.Minute},
 		Units: func(tier string) []Unit {
-			us := append(programUnits("C16", pxPrograms(tier, "layers,events"), 400, 1), c16ConcurrentUnits(tier)...)
+			us := append(pxUnits("C16", tier, "layers,events", 1), c16ConcurrentUnits(tier)...)
 			us = append(us, chunkUnits("C16", c16AsyncScenarios(tier), 10)...)
 			return append(us, chunkUnits("C16", hedgeTimingScenarios("C16/hedge-timing", tier, "events"), 40)...)
 		},
@@ -234,7 +299,7 @@ func init() {
 		Assume: []string{"IsRetry is documented as Attempts > 1 and IsFirstAttempt as Attempts == 1 on the shared counter", "LastResult/LastError are compared at points where the observing attempt is not cancelled"},
 		Budget: map[string]time.Duration{"quick": 150 * time.Second, "thorough": 25 * time.Minute},
 		Units: func(tier string) []Unit {
-			return append(programUnits("C17", pxPrograms(tier, "layers,stats"), 200, 1), chunkUnits("C17", hedgeTimingScenarios("C17/hedge-timing", tier, "stats"), 40)...)
+			return append(pxUnits("C17", tier, "layers,stats", 1), chunkUnits("C17", hedgeTimingScenarios("C17/hedge-timing", tier, "stats"), 40)...)
 		},
 	})
 }
